@@ -61,7 +61,9 @@ def build_objects(rng, n=4, max_extra=2):
     sb.run(["init", "-l", "0002-flat-direct-storage-layout"])
     objs = []
     for i in range(n):
-        oid = "o%d" % i
+        # every fourth object gives validate nothing to warn about: URI id, sha512, unpadded, full commit metadata
+        clean = (i % 4 == 0)
+        oid = ("urn:example:o%d" % i) if clean else "o%d" % i
         alg = ["sha512", "sha256"][i % 2]
         a = ["new", "-d", alg, "-z", str([0, 3][(i // 2) % 2])]
         if i % 3 == 1:
@@ -77,7 +79,7 @@ def build_objects(rng, n=4, max_extra=2):
                 sb.run(["mv", "-i", oid, "a.txt", "--", "renamed.txt"])
             if rng.random() < 0.4:
                 sb.run(["rm", oid, "b.txt"])
-            sb.run(["commit", "-c", TS, "-n", "Me", "-m", "v%d" % (k + 2), oid])
+            sb.run(["commit", "-c", TS, "-n", "Me"] + (["-a", "mailto:me@example.org"] if clean else []) + ["-m", "v%d" % (k + 2), oid])
         if i % 4 == 3:
             sb.run(["upgrade", "-v", "1.1", "-c", TS, oid])
         objs.append(os.path.join(sb.root, oid))
